@@ -223,3 +223,20 @@ V('c18-mock-uncalled', 'C18', 'C18.R5b',
   (SPF, "new_instance[pname].lower() != test_value.lower():", "new_instance[pname].lower != test_value.lower:"), 'uncalled')
 V('c18-mock-case', 'C18', 'C18.R5',
   (SPF, "        if modified_instance.classname.lower() != \\\n                SUBSCRIPTION_CLASSNAME.lower():", "        if modified_instance.classname != SUBSCRIPTION_CLASSNAME:"), 'case')
+
+# ---- C20 ------------------------------------------------------------------
+VMF = 'pywbem/_valuemapping.py'
+V('c20-regex-unanchored', 'C20', 'C20.R2',
+  (UTL, "    r'^[+\\-]?0X(?:[0-9A-F]+)$',", "    r'^[+\\-]?0X(?:[0-9A-F]+)',"), 'unguarded-conversion')
+V('c20-regex-alphabet', 'C20', 'C20.R2',
+  (UTL, "    r'^[+\\-]?0(?:[1-7]*)$',", "    r'^[+\\-]?0(?:[1-9]*)$',"), 'unguarded-conversion')
+V('c20-mirror', 'C20', 'C20.R4',
+  (VMF, "                hi = next_lo - 1", "                hi = next_lo"), 'mirror')
+V('c20-mirror-limit', 'C20', 'C20.R4',
+  (VMF, "                lo = cimtype.minvalue", "                lo = 0"), 'mirror')
+V('c20-wrong-exception', 'C20', 'C20.R1',
+  (VMF, "        val = _integerValue_to_int(val_str)\n        if val is None:\n            raise ModelError(",
+        "        val = _integerValue_to_int(val_str)\n        if val is None:\n            raise RuntimeError("), 'RuntimeError')
+V('c20-none-match', 'C20', 'C20.R1',
+  (VMF, "        if m is None:\n            valuemap_int = self._to_int(valuemap_str)\n            return (valuemap_int, valuemap_int, values_str)\n",
+        "        if valuemap_str.isdigit():\n            valuemap_int = self._to_int(valuemap_str)\n            return (valuemap_int, valuemap_int, values_str)\n"), 'AttributeError')
